@@ -172,6 +172,39 @@ Theorem C07_impl_error_crosses_any_context : forall defs E c st fuel,
 Proof. exact M_error_through_any_context. Qed.
 Print Assumptions C07_impl_error_crosses_any_context.
 
+(* (8') Functions with a closure.  A defun written inside let / block forms gets the scope it is evaluated in as
+   closure, and Lambda.Call gives the scope of each call the two parents [closure, caller].  The block lookup
+   of return-from (scope.go InBlock) sees, from inside the body: the call scope itself = the block named like
+   the function, every scope of the defining context, every scope of the callers. *)
+Theorem C07_block_lookup_covers_call_scope_closure_and_callers : forall f dc sc t,
+  in_block ((true, f) :: dc ++ sc) t = N.eqb f t || in_block dc t || in_block sc t.
+Proof. exact in_block_call_scope. Qed.
+Print Assumptions C07_block_lookup_covers_call_scope_closure_and_callers.
+
+(* (8'') return-from with the function's own name leaves the function from any depth E of its body, yields the
+   value, runs exactly the cleanups of E innermost first and nothing after the exit - WHATEVER the context dc
+   the defun was written in (none: top level; let scopes; blocks); reference, and model of the Go code for
+   lexically scoped function bodies. *)
+Theorem C07_return_from_function_name : forall (defs : list def) i dc E v pre post bl tg st fuel,
+  nth_error defs i = Some (dc, trs pre ++ plug E (ReturnFrom (fn_tag i) (Const (LInt v))) :: post) ->
+  transp E (Ret (fn_tag i) (VInt v)) = true -> enterable E (logtrs pre st) ->
+  seval defs (S (length E + S (S fuel))) bl tg (CallU i) st = (Normal (VInt v), leave E (enter E (logtrs pre st))).
+Proof. exact S_return_from_function. Qed.
+Print Assumptions C07_return_from_function_name.
+Theorem C07_impl_return_from_function_name_any_closure : forall (defs : list def) i dc E v pre post st fuel,
+  gd_defs 0 defs = true ->
+  nth_error defs i = Some (dc, trs pre ++ plug E (ReturnFrom (fn_tag i) (Const (LInt v))) :: post) ->
+  transp E (Ret (fn_tag i) (VInt v)) = true -> enterable E (logtrs pre st) ->
+  mrun (S (length E + S (S fuel))) (defs, CallU i) st = (MVal (VInt v), leave E (enter E (logtrs pre st))).
+Proof. exact M_return_from_function_any_closure. Qed.
+Print Assumptions C07_impl_return_from_function_name_any_closure.
+Theorem C07_closure_function_nonvacuous :
+  guard ex_closure_fn = true /\
+  run_m ex_closure_fn [0%Z] = (MVal (VList [VInt 2; VInt 7]), [(1, 0, 0); (2, 0, 0); (5, 0, 0); (7, 0, 0)]%N, [0%Z]) /\
+  run_s ex_closure_fn [0%Z] = (Normal (VList [VInt 2; VInt 7]), [(1, 0, 0); (2, 0, 0); (5, 0, 0); (7, 0, 0)]%N, [0%Z]).
+Proof. exact ex_closure_fn_ok. Qed.
+Print Assumptions C07_closure_function_nonvacuous.
+
 (* (9) non-vacuity: a five-level program with a user function inside the guard, the exit in the middle of
    a when body, its value and trace; a seventeen-frame context containing every frame kind, with forms after
    the hole in every body, satisfying the hypotheses of (5)-(8) for a return and a go (and, cut before its
@@ -218,9 +251,12 @@ Print Assumptions C07_repaired_witnesses_agree.
 (* (11) Where the faithful model still violates the reference (each a known finding replayed on the Go code
    on every run, and what the guard excludes): blocks and tags are looked up dynamically.  A function can
    return from a block of its caller; a function called inside a tagbody can go to a tag of its caller;
-   a go to a tag that no tagbody has is not an error, its marker leaves the tagbody as a value. *)
+   a go to a tag that no tagbody has is not an error, its marker leaves the tagbody as a value; a function
+   defined inside a block finds that block on its closure chain after the block has exited, the marker of a
+   return-from to it is caught by nobody and becomes the value of the program. *)
 Theorem C07_dynamic_lookup_refuted :
-  guard w_dyn = false /\ guard w_dyn_go = false /\ guard w_go_unknown = false /\
+  guard w_dyn = false /\ guard w_dyn_go = false /\ guard w_go_unknown = false /\ guard w_exited = false /\
+  fst (mrun 60 w_exited st0) = MVal (VRetM 7%N (VInt 1)) /\ fst (srun 60 w_exited st0) = Err CControl /\
   fst (mrun 60 w_dyn st0) = MVal (VInt 3) /\ fst (srun 60 w_dyn st0) = Err CControl /\
   run_m w_dyn_go [0%Z] = (MVal VNil, [], [0%Z]) /\ run_s w_dyn_go [0%Z] = (Err CControl, [], [0%Z]) /\
   fst (mrun 60 w_go_unknown st0) = MVal (VGoM 45%N) /\ fst (srun 60 w_go_unknown st0) = Err CControl.
